@@ -2,13 +2,13 @@
 SPECIFICATION Spec
 CONSTANTS
   Target = "classic"
-  Kinds = {"string", "integer", "float", "bool", "choice", "file", "object", "group", "data", "pgroup", "datavalue"}
+  Kinds = {"string", "integer", "float", "bool", "choice", "file", "object", "group", "data", "pgroup", "datavalue", "gdata", "objectmulti"}
   VaryGroup = FALSE
   VaryDep = TRUE
   ValueSet = "all"
   Entries = {"SetKey", "SetAll", "Check"}
   MaxDepth = 1
-  Deviations = {"StrIdSkipsMembership", "PgTypeNeedsEntity"}
+  Deviations = {"StrIdSkipsMembership", "PgTypeNeedsEntity", "MultiItemsUnchecked"}
 PROPERTY VerdictIsAccepts
 PROPERTY RejectedLeavesUnchanged
 INVARIANT HierarchyLaws
